@@ -370,6 +370,8 @@ def check(ctx):
                 okb = True
             else:
                 okb, bound = False, canon(loop.iter)
+                if call_name(loop.iter) in ("itertools.count", "count") and len(loop.iter.args) <= 2:
+                    okb, bound = True, "unbounded (itertools.count)"
                 if call_name(loop.iter) == "range" and loop.iter.args:
                     hi = loop.iter.args[-1] if len(loop.iter.args) <= 2 else loop.iter.args[1]
                     n = const_num(hi)
